@@ -18,6 +18,7 @@ pub async fn run_other(kind: &str, case: &Value) -> Value {
         "drop-partial" => run_drop_partial(case).await,
         "creds" => run_creds(case).await,
         "demux" => run_demux(case).await,
+        "drop-close" => run_drop_close(case).await,
         _ => json!({"verdict": "harness-error", "why": format!("unknown case kind {kind}")}),
     }
 }
@@ -580,4 +581,96 @@ impl SplitMarker for Vec<u8> {
         }
         v
     }
+}
+
+
+/// C18: the abandoned reply future is the one returned by `Session::close()` (it owns the session
+/// object). An earlier request is still outstanding; its reply arrives only after the drop.
+async fn run_drop_close(case: &Value) -> Value {
+    let tr = Tr::parse(case["tr"].as_str().unwrap_or("tls")).unwrap();
+    let polled = case["polled"].as_bool().unwrap_or(false);
+    let hello = hello_bytes(&["urn:ietf:params:netconf:base:1.0"]);
+    let mut lis = match Listener::bind(tr).await {
+        Ok(l) => l,
+        Err(e) => return json!({"verdict": "harness-error", "why": format!("bind: {e}")}),
+    };
+    let ep = lis.endpoint.clone();
+    let pw = lis.ssh_password.clone();
+    let cl = tokio::spawn(async move {
+        async fn go<T: netconf::transport::Transport + 'static>(s: Result<Session<T>, netconf::Error>, polled: bool) -> Value {
+            let mut s = match s {
+                Ok(s) => s,
+                Err(e) => return json!({"establish": format!("{e:?}")}),
+            };
+            let Ok(f1) = s.rpc::<Get, _>(|b| b.finish()).await else { return json!({"establish": "rpc failed"}) };
+            let fclose = match s.close().await {
+                Ok(f) => f,
+                Err(e) => return json!({"establish": format!("close(): {e:?}")}),
+            };
+            tracing::info!(target: "vh::client", "requests-sent");
+            let state = if polled {
+                // it becomes the reader, then is abandoned
+                let r = tokio::time::timeout(Duration::from_millis(150), fclose).await;
+                if r.is_err() { "dropped-while-reading" } else { "resolved-before-drop" }
+            } else {
+                drop(fclose);
+                "dropped-unpolled"
+            };
+            tracing::info!(target: "vh::client", "close-dropped");
+            let surv = match tokio::time::timeout(Duration::from_secs(3), f1).await {
+                Ok(Ok(v)) => format!("ok:{v}"),
+                Ok(Err(e)) => format!("err:{e:?}"),
+                Err(_) => "timeout".into(),
+            };
+            json!({"establish": "ok", "close_future": state, "survivor": surv})
+        }
+        let to = Duration::from_secs(6);
+        match (tr, ep) {
+            (Tr::Tls, Endpoint::Tcp(p)) => match tokio::time::timeout(to, connect_tls(p)).await {
+                Ok(s) => go(s, polled).await,
+                Err(_) => json!({"establish": "TIMEOUT"}),
+            },
+            (Tr::Ssh, Endpoint::Tcp(p)) => match tokio::time::timeout(to, Session::ssh(("127.0.0.1", p), "vh".to_string(), pw.parse().unwrap())).await {
+                Ok(s) => go(s, polled).await,
+                Err(_) => json!({"establish": "TIMEOUT"}),
+            },
+            (Tr::Cli, Endpoint::Unix(path)) => {
+                let exe = std::env::current_exe().unwrap().to_string_lossy().into_owned();
+                let p = path.to_string_lossy().into_owned();
+                match tokio::time::timeout(to, Session::verif_junos_local(&exe, &["fake-cli", &p])).await {
+                    Ok(s) => go(s, polled).await,
+                    Err(_) => json!({"establish": "TIMEOUT"}),
+                }
+            }
+            _ => json!({"establish": "harness"}),
+        }
+    });
+    let mut conn = match tokio::time::timeout(Duration::from_secs(8), lis.accept()).await {
+        Ok(Ok(c)) => c,
+        other => return json!({"verdict": "harness-error", "why": format!("accept: {:?}", other.map(|r| r.map(|_| ())))}),
+    };
+    let _ = conn.send_unit(&hello).await;
+    let mut from_client = Vec::new();
+    // client hello, <get>, <close-session>
+    let got = conn.read_messages(&mut from_client, 3, Duration::from_secs(4)).await;
+    // the router is slow: nothing is answered until the close future has been abandoned
+    let t0 = std::time::Instant::now();
+    while !trace::snapshot().iter().any(|e| e.target == "vh::client" && e.msg.starts_with("close-dropped")) && t0.elapsed() < Duration::from_secs(3) {
+        tokio::time::sleep(Duration::from_millis(5)).await;
+    }
+    tokio::time::sleep(Duration::from_millis(60)).await;
+    let sent = conn.send_unit(&reply_bytes(1, "tag-1", 0, false)).await.is_ok();
+    let out = tokio::time::timeout(Duration::from_secs(8), cl).await.ok().and_then(Result::ok).unwrap_or(json!({"establish": "client task lost"}));
+    conn.close(CloseManner::Clean).await;
+    if out["establish"] != "ok" || !got {
+        return json!({"verdict": "not-exercised", "why": format!("setup: {out}")});
+    }
+    if out["close_future"] == "resolved-before-drop" {
+        return json!({"verdict": "not-exercised", "why": "the close future resolved before it could be dropped", "client": out});
+    }
+    let mut symptoms = Vec::new();
+    if !out["survivor"].as_str().map_or(false, |s| s.starts_with("ok:tag-1")) {
+        symptoms.push("survivor-did-not-get-its-reply-after-the-close-future-was-dropped");
+    }
+    json!({"verdict": if symptoms.is_empty() { "held" } else { "violated" }, "symptoms": symptoms, "client": out, "reply_could_be_sent": sent})
 }
